@@ -28,7 +28,7 @@ class Ctx:
     def __init__(self, spec, obs='light'):
         self.spec = spec
         self.obs = obs  # 'light' | 'candles'
-        self.trace = []
+        self.trace = Trace()
         self.phase = 'init'
         self.final = None
         self.strategies = {}
@@ -519,8 +519,23 @@ class Watchdog(Exception):
     candle, e.g. wrong-side exits larger than the position flipping it back and forth); the run then counts as aborted."""
 
 
+_ARMED = [False]
+TRACE_CAP = 400_000
+
+
 def _alarm(signum, frame):
-    raise Watchdog('session exceeded its time limit')
+    # the timer repeats: an exception raised inside a gc callback or a broad `except` of the tested code is swallowed there
+    if _ARMED[0]:
+        raise Watchdog('session exceeded its time limit')
+
+
+class Trace(list):
+    """Event list with a hard cap: a runaway session (orders created in an endless loop) is stopped by size as well as by time."""
+
+    def append(self, item):
+        if len(self) >= TRACE_CAP and _ARMED[0]:
+            raise Watchdog('session exceeded its event limit')
+        list.append(self, item)
 
 
 def run(spec, obs='light', clean_globals=True, check_args=False):
@@ -554,7 +569,8 @@ def run(spec, obs='light', clean_globals=True, check_args=False):
     limit = float(spec.get('time_limit', 20 + n_min / 40))
     if use_alarm:
         old_handler = signal.signal(signal.SIGALRM, _alarm)
-        signal.setitimer(signal.ITIMER_REAL, limit)
+        signal.setitimer(signal.ITIMER_REAL, limit, 1.0)
+    _ARMED[0] = True
     try:
         result = research.backtest(config, routes, data, candles, warmup_candles=warm, hyperparameters=hp_arg,
                                    fast_mode=bool(spec.get('fast')))
@@ -562,6 +578,7 @@ def run(spec, obs='light', clean_globals=True, check_args=False):
         import traceback
         error = dict(type=type(e).__name__, msg=str(e)[:500], tb=traceback.format_exc()[-1500:])
     finally:
+        _ARMED[0] = False
         if use_alarm:
             signal.setitimer(signal.ITIMER_REAL, 0)
             signal.signal(signal.SIGALRM, old_handler)
